@@ -377,6 +377,18 @@ def harvest():
                     slots.append(None)
                 else:
                     slots.append(dict(cast=bytes(chunk_of(ci).data), links=[l for l in links.get(ci, []) if l[0] in ("STXT", "snd ", "CLUT", "BITD", "THUM")], src=p.name))
+            # a bitmap that uses a custom palette names the SLOT of the palette member (number = slot + 1): remember that bundle,
+            # so that a recombined movie can put it at the slot the bitmap's record names
+            from drxtract.cast.cast import parse_cast_file_data
+            for s in slots:
+                if s is not None and any(l[0] == "BITD" for l in s["links"]):
+                    try:
+                        pv = str(parse_cast_file_data(s["cast"]).get("palette", 0))
+                        pid = int(pv) if pv.lstrip("-").isdigit() else 0
+                        if 0 < pid <= len(slots) and slots[pid - 1] is not None and any(l[0] == "CLUT" for l in slots[pid - 1]["links"]):
+                            s["pal_slot"], s["pal_bundle"] = pid - 1, slots[pid - 1]
+                    except Exception:
+                        pass
             pool["members"] += [s for s in slots if s is not None]
         except Exception as e:
             continue
@@ -515,11 +527,13 @@ def gen_generated_members(rng, n):
         r = rng.random()
         if r < 0.12:
             members.append(None); continue
-        kind = rng.choice(["bitmap", "bitmap", "bitmap", "field", "sound", "palette", "button", "shape", "script", "richText", "transition", "oddbitmap"])
+        kind = rng.choice(["bitmap", "bitmap", "bitmap", "field", "sound", "palette", "palette", "button", "shape", "script", "richText", "transition", "oddbitmap"])
+        if pal_slots and rng.random() < 0.3:
+            kind = "bitmap"
         try:
             if kind == "bitmap":
-                depth = rng.choice([1, 8, 8, 16, 32])
-                pal = rng.choice([0, -1, -2, -101, -100]) if not (depth == 8 and pal_slots and rng.random() < 0.6) else rng.choice(pal_slots) + 1
+                depth = rng.choice([1, 8, 8, 16, 32]) if not (pal_slots and rng.random() < 0.5) else 8
+                pal = rng.choice([0, -1, -2, -101, -100]) if not (depth == 8 and pal_slots and rng.random() < 0.75) else rng.choice(pal_slots) + 1
                 rec, bitd = gen_bitmap_member(rng, depth, pal if depth == 8 else rng.choice([0, -1, 5]))
                 links = [("BITD", bitd)] + ([("THUM", rb(rng))] if rng.random() < 0.2 else [])
                 members.append(dict(cast=rec, links=links)); continue
@@ -595,6 +609,15 @@ def gen_real_movie(rng):
                 members.append(None)
             else:
                 b = rng.choice(pool["members"])
+                if "pal_bundle" in b and rng.random() < 0.85:
+                    # keep the palette member of the bitmap's own movie at the slot the bitmap's record names
+                    k, pb = b["pal_slot"], b["pal_bundle"]
+                    while len(members) < k:
+                        members.append(None)
+                    if len(members) == k:
+                        members.append(dict(cast=pb["cast"], links=list(pb["links"])))
+                    else:
+                        members[k] = dict(cast=pb["cast"], links=list(pb["links"]))
                 members.append(dict(cast=b["cast"], links=list(b["links"])))
     pick = lambda fix, gen, p: (rng.choice((fix if (fix and (not gen or rng.random() < 0.5)) else gen)) if (fix or gen) and rng.random() < p else None)
     m = dict(order=order, prefix=prefix, members=members, vwcf=pick(pool["vwcf"], gp["vwcf"], 1.1), key_noise=rng.randrange(0, 3),
@@ -656,7 +679,8 @@ def fixture_cases(tier):
                     outside_bitmap_model=len(outside), sha=hashlib.sha1(data).hexdigest()[:12])
         pre = "#" if slow else ""
         lines = [pre + f"dir realparts default {order} {off} {hx(data)}"]
-        if not outside:
+        if not outside and px <= FIXTURE_PIXEL_CAP["quick"]:
+            # (a movie that costs minutes in the bitmap model is compared once, part by part: the same observations when the call returns)
             lines.insert(0, pre + f"dir real default {order} {off} {hx(data)}")
         out.append(Case(kind="repo-fixture-big" if slow else "repo-fixture", spec=spec, lines=lines, expect=[None] * len(lines)))
     return out
@@ -826,14 +850,27 @@ def nontrivial(case, io):
 
 def _m_f28(case, f, p):
     """F28: some bitmap member refers (palette id p > 0) to a palette member in the same or a LATER cast slot, and the call raised"""
-    if f.got != '"error"' or case["spec"].get("mode") != "stub":
+    # (an oracle failure carries the list of the case's observables, a stage-D expectation failure the observable itself)
+    if f.got not in ('"error"', canon(['"error"'])) or case["spec"].get("mode") not in ("stub", "real"):
         return False
     m = _spec_movie(case)
     for i, s in enumerate(m["members"]):
-        if s is not None and any(cc == "BITD" for cc, _ in s["links"]) and len(s["cast"]) >= 3 and s["cast"][0] == 1:
+        if s is None or not any(cc == "BITD" for cc, _ in s["links"]):
+            continue
+        if case["spec"]["mode"] == "stub":
+            if not (len(s["cast"]) >= 3 and s["cast"][0] == 1):
+                continue
             pid = struct.unpack(">h", s["cast"][1:3])[0]
-            if pid - 1 >= i and pid - 1 < len(m["members"]):
-                return True
+        else:
+            # real mode: the palette number as the real record parser reports it (a numeric 'palette' entry)
+            try:
+                from drxtract.cast.cast import parse_cast_file_data
+                pv = str(parse_cast_file_data(s["cast"]).get("palette", 0))
+                pid = int(pv) if pv.lstrip("-").isdigit() else 0
+            except Exception:
+                continue
+        if pid > 0 and pid - 1 >= i and pid - 1 < len(m["members"]):
+            return True
     return False
 
 
